@@ -62,7 +62,57 @@ Proof.
   pose proof (imi_len _ I) as L. unfold ibound in B. lia.
 Qed.
 
+(** None of the worker's debug assertions / expects is reachable, in any history: the active
+    slot's fingerprint is always cached (decide_active_path_update, merge_new_paths_algo), every
+    FIFO id is in the issue map (pop_front), and a successful lookup that leaves the cache empty
+    is handled (the former expect in fetch_and_update).  In particular the worker task never
+    dies on a panic, so senders never wait for a lookup that cannot complete. *)
+Theorem worker_never_panics :
+  forall (c : cfg) (t0 : N) (evs : list ev),
+    let s := run pol decay c (init_st c t0) evs in
+    s_panic s = None /\
+    (forall a, s_active s = Some a -> exists e, In e (s_cached s) /\ e_fp e = p_fp a).
+Proof.
+  intros c t0 evs s. destruct (run_NP pol decay c evs (init_st c t0) (init_NP c t0)) as (A & _ & P).
+  split; [exact P|exact A].
+Qed.
+
+(** While at least one valid path is known a sender is not left without one -- PARTIAL:
+    (i) it is a statement about the instants up to the next scheduled lookup, i.e. it relies on
+    the worker's timer firing when due (tokio, not modelled); (ii) it needs the backoff ceiling
+    not to exceed the expiry threshold ([c_bo_max <= c_thresh], true of the default
+    configuration, NOT enforced by the validator: open finding C06-backoff-outlasts-threshold,
+    witness [Findings.backoff_outlasts_threshold]).
+    After every lookup (successful, empty or failed) in every reachable state: if some cached
+    path is valid, the active slot holds a valid path, and every send before the next scheduled
+    lookup returns it, unexpired. *)
+Theorem never_without_path_while_valid_known_partial :
+  forall (c : cfg) (t0 : N) (evs : list ev) (now : N) (a : answer) (jit : N) (s' : st),
+    cfg_valid c = true -> c_bo_max c <= c_thresh c ->
+    step pol decay c (run pol decay c (init_st c t0) evs) (Tick now a jit) = (s', OTick true) ->
+    (exists e, In e (s_cached s') /\ is_valid c now (e_path e) = true) ->
+    exists p, s_active s' = Some p /\ is_valid c now p = true /\
+      forall t, t < s_next_refetch s' -> t / NS < U32 -> snd (step pol decay c s' (Send t)) = OPath p.
+Proof.
+  intros c t0 evs now a jit s' V Hbo E Hv.
+  pose proof (run_SI pol decay c evs (init_st c t0) (init_SI c t0)) as I.
+  set (s := run pol decay c (init_st c t0) evs) in *.
+  unfold step in E. destruct (s_dead s); [discriminate|]. unfold maintain in E.
+  destruct (_ && _); [discriminate|].
+  match type of E with context [s_next_refetch ?s1 <=? now] => assert (I1 : SI s1) by (destruct (s_next_idle s <=? now); exact I) end.
+  destruct (s_next_refetch _ <=? now); inv E.
+  destruct (fetch_serves pol decay c _ now a jit V Hbo I1 Hv) as (p & x & A & B & C & D & F).
+  exists p. split; [exact A|]. split; [exact B|].
+  intros t Lt Lu. unfold step. rewrite F. unfold hand_out. rewrite A.
+  assert (X : expired_at_handout p t = false).
+  { unfold expired_at_handout. rewrite C. apply N.leb_gt. rewrite N.mod_small by exact Lu.
+    apply N.div_lt_upper_bound; [discriminate|]. lia. }
+  rewrite X. reflexivity.
+Qed.
+
 End C06.
+Print Assumptions never_without_path_while_valid_known_partial.
+Print Assumptions worker_never_panics.
 Print Assumptions cache_bounded.
 Print Assumptions refetch_window.
 Print Assumptions handed_out_not_expired.
